@@ -487,9 +487,11 @@ void harness(void)
     case 11: {
       poll_events[0] = tmo[0];
       uint32_t ev = F_vp_m_poll1((uint32_t) act[0], (uint32_t) a, (char *) &e);
-      VP_ASSERT(C19, n_calls == 1 && got_size == 1 && got_int[0] == a && poll_interests[0] == act[0] &&
+      VP_ASSERT(C19, n_calls == 2 && got_size == 1 && got_int[0] == a && poll_interests[0] == act[0] &&
                          poll_proc[0] == &the_handle[0],
                 "member poll does not pass handle, interests and timeout");
+      VP_ASSERT(C19, got_handle == &the_handle[0],
+                "after a member poll (successful or not) the process object no longer owns its handle");
       VP_ASSERT(C19, stub_ret < 0 || (int) ev == tmo[0], "member poll does not return the reported events");
       VP_ASSERT(C15, n_destroy == 1 && destroyed[0] == &the_handle[0], "member poll loses or double-destroys the handle");
       break;
